@@ -34,6 +34,13 @@ def main(argv):
     except ImportError:
         traceback.print_exc()
         return 2
+    if os.environ.get("VERIF_RELOAD") == "1" and mode in ("batch", "replay"):
+        try:
+            runner.reload_target()
+        except BaseException:  # noqa
+            print("HARNESS-ERROR property=%s reloading the package failed:" % pid, file=sys.stderr)
+            traceback.print_exc()
+            return 2
     if mode == "batch":
         return runner.batch_main(pid, mod, argv[2], argv[3])
     if mode == "replay":
